@@ -2,3 +2,5 @@ import Wpull.Py.Basic
 import Wpull.Proto
 import Wpull.Ftp
 import Wpull.FtpDriver
+import Wpull.Pipeline
+import Wpull.PipelineDriver
